@@ -1,6 +1,7 @@
 import Proofs.Lemmas.LieExp
 import Proofs.Lemmas.LieExpBounds
 import Proofs.Lemmas.Sim3Bounds
+import Proofs.Lemmas.ExpBatch
 /-!
 # C01 — `Exp` is the matrix exponential on so3, se3, rxso3 and sim3
 
@@ -316,6 +317,33 @@ theorem sim3Exp_matrix_all (eps : ℝ) (x : sim3 ℝ) (h0 : 0 ≤ eps) (h1 : eps
 theorem sim3Exp_rotation (eps : ℝ) (x : sim3 ℝ) : (sim3Exp eps x).q = so3Exp eps x.phi := rfl
 theorem sim3Exp_scale (eps : ℝ) (x : sim3 ℝ) : (sim3Exp eps x).s = Real.exp x.sigma := rfl
 
+
+/-! ## 5b. Batches, mixed regimes, re-reads (the code's masks are per item)
+
+`so3ExpBatch` / `wsCoefBatch` (`lean/Pose/Model/ExpBatch.lean`) follow the code's batch-level data flow: masks computed
+from the whole batch, closed-form and Taylor expressions evaluated on the batch, boolean-mask scatter. -/
+
+/-- `so3_Exp.forward` on a batch is the item-wise map of the item-level model — for every mixture of regimes -/
+theorem so3ExpBatch_eq_map {α : Type} [Scalar α] (eps : α) (xs : List (Vec3 α)) :
+    so3ExpBatch eps xs = xs.map (so3Exp eps) := so3ExpBatch_eq_map' eps xs
+
+/-- the four condition masks of `rxso3_Ws` partition the batch: the scattered `(A,B,C)` are the item-wise coefficients -/
+theorem wsCoefBatch_eq_map {α : Type} [Scalar α] (eps : α) (ts : List (α × α)) :
+    wsCoefBatch eps ts = ts.map (fun p => rxso3WsCoef eps p.1 p.2) := wsCoefBatch_eq_map' eps ts
+
+/-- item `i` of a batched result depends only on item `i` of the argument (whatever the regimes of the other items) -/
+theorem batch_item_independent {β γ : Type} (f : β → γ) (xs ys : List β) (i : Nat) (h : xs[i]? = ys[i]?) :
+    (xs.map f)[i]? = (ys.map f)[i]? := by
+  rw [List.getElem?_map, List.getElem?_map, h]
+
+/-- re-reading after an in-place item assignment: exactly that item of the result changes, to the value of the new item
+(a pure function of the current state has no stale reads) -/
+theorem reread_after_setitem {β γ : Type} (f : β → γ) (xs : List β) (i : Nat) (y : β) :
+    (xs.set i y).map f = (xs.map f).set i (f y) := List.map_set
+
+/-- a call history on one shape: the `k`-th result is the map of the `k`-th argument only (no state between calls) -/
+theorem history_stateless {β γ : Type} (f : β → γ) (hist : List (List β)) (k : Nat) :
+    (hist.map (List.map f))[k]? = (hist[k]?).map (List.map f) := List.getElem?_map
 
 /-! ## 6. Non-vacuity: the hypotheses are satisfiable by non-trivial values -/
 
